@@ -17,18 +17,27 @@ A side condition exists for one of three reasons: (R1) the result would not be d
 result would not be a *single* defect of the named kind (it would read as a different list of elements, or
 carry two defects), (R3) the documentation promises nothing for that version.
 
-* `header p` (the header replaced by the bytes `p`; the rest of the string, from the first `/` on, is kept):
+* `header p` (the header replaced by the bytes `p`; the rest of the string, from the first `/` on, is kept).
+  The same rule for v3.0, v3.1 and v4.0: **the header of a vector string is the part before its first `/`**
+  (`headOf`; the whole string if it has no `/`), and the header is wrong or missing iff that part is not exactly
+  the version's header `CVSS:3.0` / `CVSS:3.1` / `CVSS:4.0`.
   - `ver = v2.0`: v2.0 vectors have no header (R3).
-  - `ver.header` (the bare `CVSS:3.0` / `CVSS:3.1` / `CVSS:4.0`, **without** a slash) is a prefix of
-    `p ++ rest`: the string still begins with the right header, so it is either the original (R1) or a
-    vector whose defect is not "a wrong or missing header" in the sense of this generator (R2). This side
-    condition is *narrower than the code's behaviour for v3*: the v3 parsers test the prefix `CVSS:3.x/`
-    (with the slash), so `CVSS:3.1X/AV:…` (header followed by junk) also gets ErrInvalidCVSSHeader although
-    this generator cannot produce it. The unconditional statement, for every byte string and not only for
-    generated ones, is `C18.header30`, `C18.header31`, `C18.header40` in `Props/C18.lean`: v3.x — every string
-    that does not begin with `CVSS:3.x/` ; v4.0 — every string that does not begin with `CVSS:4.0` (no slash:
-    `CVSS:4.0X…` is *not* a header error in v4.0, see `C18.v40_header_then_junk`).
-  - `p` is otherwise arbitrary (empty = header missing, another version's header, junk, bytes containing `/`).
+  - `headOf (p ++ rest) = ver.header`: the string still carries the right header, so it is either the original
+    (R1) or a vector whose defect is not "a wrong or missing header" (R2; e.g. `p = CVSS:3.1/XX:Y` is an inserted
+    unknown element).
+  - `p` is otherwise arbitrary: empty = header missing, another version's header, a different case, the right
+    header *followed by junk* (`CVSS:4.0X`, `CVSS:4.01`, `CVSS:3.1X`: the part before the first `/` is then longer
+    than the header), the right header preceded by junk, bytes containing `/`.
+  The unconditional statements, for every byte string and not only for generated ones, are `C18.header30`,
+  `C18.header31`, `C18.header40` (and `…_iff`, `…_spec`) in `Props/C18.lean`: ErrInvalidCVSSHeader is returned
+  exactly for the strings whose `headOf` is not the version's header — with one addition for v3: the bare
+  `CVSS:3.x` without any `/` (right header, no metrics at all; not generated here since `rest` of a grammatical
+  vector begins with `/`) is also reported as a header error by the v3 parsers, while the bare `CVSS:4.0` is
+  ErrTooShortVector (`truncate 0`).
+  (History: until finding F4 was repaired, the v4.0 parser tested the prefix `CVSS:4.0` only and reported
+  `CVSS:4.0X/…` as ErrInvalidMetricValue; an earlier version of this Spec had absorbed that into a narrower side
+  condition "the bare header is not a prefix of the result". That was a deviation of the code, not a property of
+  the documentation.)
 * `illegalValue i v` (the value of element `i` replaced by `v`):
   - `i ≥ w.length`: no such element.
   - `v` is a legal value of the metric of element `i`: not a defect (R1).
@@ -106,7 +115,8 @@ def Version.read? (ver : Version) (s : Bytes) : Option (List Pair) :=
   | .v40 => V4.read? s
 
 inductive Defect where
-  /-- replace the header by `p` (possibly empty = header missing); `p ++ body` must not start with the header -/
+  /-- replace the header by `p` (possibly empty = header missing); the part of `p ++ body` before its first `/`
+      must not be the version's header -/
   | header (p : Bytes)
   /-- element `i` gets the value `v`, which is not a legal value of its metric -/
   | illegalValue (i : Nat) (v : Bytes)
@@ -129,6 +139,49 @@ def insertAt {α} (xs : List α) (j : Nat) (x : α) : List α := xs.take j ++ x 
 
 def clean (a : Bytes) : Bool := !a.contains SLASH && !a.contains COLON
 
+/-- the header of a vector string: the part before its first `/` (the whole string if there is none) -/
+def headOf (s : Bytes) : Bytes := s.takeWhile (fun c => c != SLASH)
+
+theorem headOf_self : ∀ (l : Bytes), SLASH ∉ l → headOf l = l
+  | [], _ => rfl
+  | c :: l, h => by
+    have hc : (c != SLASH) = true := by simp only [bne_iff_ne, ne_eq]; intro e; exact h (by simp [e])
+    have := headOf_self l (fun hm => h (List.mem_cons_of_mem _ hm))
+    unfold headOf at this ⊢
+    rw [List.takeWhile_cons, hc]; simp [this]
+
+theorem headOf_append_slash : ∀ (l r : Bytes), SLASH ∉ l → headOf (l ++ SLASH :: r) = l
+  | [], r, _ => by simp [headOf]
+  | c :: l, r, h => by
+    have hc : (c != SLASH) = true := by simp only [bne_iff_ne, ne_eq]; intro e; exact h (by simp [e])
+    have := headOf_append_slash l r (fun hm => h (List.mem_cons_of_mem _ hm))
+    unfold headOf at this ⊢
+    rw [List.cons_append, List.takeWhile_cons, hc]; simp [this]
+
+/-- a string is its header, or its header followed by `/` and the rest -/
+theorem headOf_split : ∀ (s : Bytes), s = headOf s ∨ ∃ r, s = headOf s ++ SLASH :: r
+  | [] => Or.inl rfl
+  | c :: s => by
+    by_cases hc : c = SLASH
+    · subst hc; right; exact ⟨s, by simp [headOf]⟩
+    · have hb : (c != SLASH) = true := by simpa using hc
+      have e : headOf (c :: s) = c :: headOf s := by unfold headOf; rw [List.takeWhile_cons, hb]; rfl
+      rw [e]
+      rcases headOf_split s with h | ⟨r, h⟩
+      · left; rw [← h]
+      · right; exact ⟨r, by rw [List.cons_append, ← h]⟩
+
+/-- `headOf s = h` (for a slash-free `h`) says: `s` is `h` itself or begins with `h/` -/
+theorem headOf_eq_iff (s h : Bytes) (hh : SLASH ∉ h) : headOf s = h ↔ s = h ∨ (h ++ [SLASH]) <+: s := by
+  constructor
+  · intro e
+    rcases headOf_split s with hs | ⟨r, hs⟩
+    · left; rw [← e]; exact hs
+    · right; rw [← e]; exact ⟨r, by rw [List.append_assoc]; exact hs.symm⟩
+  · rintro (rfl | ⟨r, rfl⟩)
+    · exact headOf_self _ hh
+    · rw [List.append_assoc]; exact headOf_append_slash _ _ hh
+
 /-- v2.0: element counts at which a vector may end -/
 def V2.completeLengths : List Nat := [6, 9, 11, 14]
 
@@ -138,7 +191,7 @@ def Defect.apply (ver : Version) (w : List Pair) : Defect → Option (Bytes × E
     if ver = .v20 then none else
     let body := (ver.render w).drop ver.header.length
     let s := p ++ body
-    if ver.header.isPrefixOf s then none else some (s, (1, []))
+    if headOf s = ver.header then none else some (s, (1, []))
   | .illegalValue i v =>
     match w[i]? with
     | none => none
